@@ -84,7 +84,7 @@ Definition audit_table : list (string * (gclass * string)) := [
   ("getRandomProvider()::secure_random_data_provider", (GConfig, "random data provider selection: written only by QUtil::setRandomDataProvider (documented as global configuration)"));
   ("max_nesting", (GImmutable, "const reference bound at start-up to the limit inside qpdf::global::Limits::l"));
   ("name_keys", (GImmutable, "table / literal initialised before main or at first use; only read"));
-  ("null_oh", (GSharedMutable, "QPDF_Array.cc file-static: THE QPDFObject returned for every hole of a sparse array by Array::get/getAsVector/iteration (D6)"));
+  ("null_oh", (GSharedMutable, "REMOVED by fix b456e5d1 (was QPDF_Array.cc file-static, THE QPDFObject returned for every hole of a sparse array by Array::get/getAsVector/iteration: finding D6); kept so that its return is named by globals_none_shared_mutable"));
   ("padding_string", (GImmutable, "table / literal initialised before main or at first use; only read"));
   ("qpdf::Array::operator[](int) const::null_obj", (GImmutable, "default-constructed (empty) QPDFObjectHandle returned by reference for a missing item; holds no object, is never assigned"));
   ("qpdf::Array::operator[](unsigned long) const::null_obj", (GImmutable, "default-constructed (empty) QPDFObjectHandle returned by reference for a missing item; holds no object, is never assigned"));
@@ -92,11 +92,11 @@ Definition audit_table : list (string * (gclass * string)) := [
   ("qpdf::BaseHandle::find(std::string const&) const::null_obj", (GImmutable, "default-constructed (empty) QPDFObjectHandle returned by reference for a missing item; holds no object, is never assigned"));
   ("qpdf::BaseHandle::operator[](std::string const&) const::null_obj", (GImmutable, "default-constructed (empty) QPDFObjectHandle returned by reference for a missing item; holds no object, is never assigned"));
   ("qpdf::BaseHandle::type_name() const::tn", (GImmutable, "table / literal initialised before main or at first use; only read"));
-  ("qpdf::Null::temp_", (GSharedMutable, "one QPDF_Null handed to callers by Null::if_null (QPDFFormFieldObjectHelper getParent/getValue/getDefaultValue/...): same defect class as D6"));
+  ("qpdf::Null::temp_", (GImmutable, "a QPDF_Null that is no longer handed out: since fix b456e5d1 Null::temp() creates a fresh object; the static member is only constructed"));
   ("qpdf::global::Limits::l", (GConfig, "process-wide option written only by its documented static setter (test/CLI configuration), read by every instance"));
   ("qpdf::global::Options::o", (GConfig, "process-wide option written only by its documented static setter (test/CLI configuration), read by every instance"));
   ("qpdf::impl::FormNode::null_oh", (GImmutable, "const default-constructed (empty) QPDFObjectHandle returned for a missing field value; holds no object"));
-  ("qpdf::impl::Parser::add_null()::null_obj", (GSharedMutable, "THE QPDFObject behind every parsed `null` token of every document; setObjGen/move_to/disconnect write it (D6)"));
+  ("qpdf::impl::Parser::add_null()::null_obj", (GSharedMutable, "REMOVED by fix b456e5d1 (was THE QPDFObject behind every parsed `null` token of every document, written by setObjGen/move_to/disconnect: finding D6); kept so that its return is named by globals_none_shared_mutable"));
   ("qpdf::impl::Parser::parse_content(InputSource&, std::shared_ptr<std::variant<std::string, QPDFObject::JSON_Descr, QPDFObject::ChildDescr, QPDFObject::ObjStreamDescr> >, qpdf::Tokenizer&, QPDF*)::content", (GImmutable, "function-local const object (regex / lookup table / literal) built once under C++11 static initialisation, then only read through const members"));
   ("qpdf::impl::Writer::generateID(bool)::tmp", (GImmutable, "table / literal initialised before main or at first use; only read"));
   ("transcode_utf8(std::string const&, std::string&, encoding_e, char)::ef_bb_bf", (GImmutable, "function-local const object (regex / lookup table / literal) built once under C++11 static initialisation, then only read through const members"));
@@ -117,9 +117,9 @@ Definition audited (g : string) : bool := match audit_class g with Some _ => tru
 Definition is_shared_mutable (g : string) : bool :=
   match audit_class g with Some GSharedMutable => true | _ => false end.
 
-(* the statics that make up finding D6 (known_findings.json: C20:shared-static-null[-race]) *)
+(* the statics that made up finding D6 (known_findings.json: C20:shared-static-null[-race], fixed by b456e5d1);
+   none of them may be present and shared-mutable in the library any more *)
 Definition d6_statics : list string := [
   "null_oh";
-  "qpdf::Null::temp_";
   "qpdf::impl::Parser::add_null()::null_obj"
 ].
